@@ -1,14 +1,18 @@
 // C10 — HTTP client <-> server exactness: the real Http::request client and the real HttpServer per-connection code run
 // as threads over vnet (tiny pipe, tiny block sizes in the small-scope flavour) under the controlled scheduler; every
-// method x body length x response shape, JSON and file/range bodies, keep-alive, two concurrent clients, raw clients and
-// raw servers that fragment their bytes, all within a preemption bound.
+// method x body length x response shape, JSON / form / file / multipart bodies, every form of byte range, redirects,
+// keep-alive, two concurrent clients, raw clients and raw servers that fragment their bytes (and spell header names in
+// any case), all within a preemption bound.
 #include <asl/HttpServer.h>
 #include <asl/Http.h>
 #include <asl/Socket.h>
 #include <asl/Thread.h>
 #include <asl/File.h>
 #include <asl/Var.h>
+#include <asl/JSON.h>
 #include <map>
+#include <algorithm>
+#include <unistd.h>
 #include "vf.h"
 #include "aslx.h"
 #include "vsched.h"
@@ -16,7 +20,9 @@
 using namespace asl;
 using vf::fmt;
 
-static int C_EXEC, C_POINTS, C_JOBS, C_EVAL, C_DIST, W_PREEMPT, W_PARTIAL, W_RANGE206, W_RANGE416, W_JSON, W_KEEPALIVE, W_TWOCLIENTS, W_CHUNKED_REQ, W_CHUNKED_RESP, W_BIG;
+static int C_EXEC, C_POINTS, C_JOBS, C_EVAL, C_DIST, W_PREEMPT, W_RANGE206, W_RANGE416, W_JSON, W_KEEPALIVE, W_TWOCLIENTS, W_CHUNKED_REQ, W_CHUNKED_RESP, W_BIG;
+static int W_QUERYVALS, W_PCTPATH, W_FRAGMENT, W_RANGE_OPEN, W_RANGE_SUFFIX, W_RANGE_IGNORED, W_LOWER_HDR, W_REDIRECT_HOPS, W_REDIRECT_LIMIT, W_REDIRECT_OFF, W_FILE_REQ, W_MULTIPART, W_DOWNLOAD, W_FORM, W_METHODS, W_OPTIONS_AUTO, W_EXPECT_SRV, W_INTERIM_CLI, W_HTTP10, W_MISSING, W_MIXED, W_LIGHT, W_TWOLIB, W_HDR3, W_FRAGMENTED;
+static inline void wit(int c) { if (c > 0) vf::add(c); } // witness counters are registered only in the part (small / --big) that can reach them
 static std::string g_case;
 static void onFatal(const char* what, const std::string& schedule) {
 	std::string w = what;
@@ -26,8 +32,17 @@ static void onFatal(const char* what, const std::string& schedule) {
 }
 static std::string bodyOf(int n, int seed) { static const char al[] = { 'a', '\r', '\n', 0, 'Z', (char)0xff, ' ', '%' }; std::string s; for (int i = 0; i < n; i++) s += al[(i * 3 + seed + i / 8) % 8]; return s; }
 static std::string g_root;
+static const std::string FILE6 = "012345";
+#define BASEURL "http://127.0.0.1:8000"
 
-struct Seen { std::string method, path, query, body; std::map<std::string, std::string> headers; };
+// A failure that is a classified defect of the library: reported under its own signature (so that it can be listed as a
+// known finding without hiding anything else). The text must come first in the verdict of the scenario.
+static std::string classified(const char* sig, const std::string& desc) {
+	if (vf::known(sig)) { vf::known_hit(sig, desc); return ""; }
+	return std::string("[sig=") + sig + "] " + desc + "; ";
+}
+
+struct Seen { std::string method, path, query, body, hLower; std::map<std::string, std::string> headers, qv; };
 struct Srv : public HttpServer {
 	std::vector<Seen> seen;
 	Srv() : HttpServer(-1) {}
@@ -35,11 +50,13 @@ struct Srv : public HttpServer {
 		Seen s; s.method = vfx::S(q.method()); s.path = vfx::S(q.path()); s.query = vfx::S(q.querystring());
 		const ByteArray& b = q.body(); s.body.assign((const char*)b.data(), b.length());
 		foreach2 (String & k, const String& v, q.headers()) s.headers[vfx::S(k)] = vfx::S(v);
+		foreach2 (String & k2, const String& v2, q.query()) s.qv[vfx::S(k2)] = vfx::S(v2);
+		s.hLower = q.hasHeader("x-lOwEr") ? vfx::S(q.header("X-LOWER")) : std::string("<absent>");
 		seen.push_back(s);
 		String p = q.path();
 		if (p == "/echo") { int code = q.query("code") ? (int)q.query("code") : 200; r.setCode(code); r.setHeader("X-Method", q.method()); r.setHeader("X-Len", String(b.length())); if (q.hasHeader("X-Token")) r.setHeader("X-Token", q.header("X-Token")); r.setHeader("X-Special", "v;=, \"q\" :/?#[]@!$&'()*+%"); r.put(b); }
 		else if (p == "/len") { r.put(ByteArray((const byte*)bodyOf((int)q.query("n"), 2).data(), (int)q.query("n"))); }
-		else if (p == "/json") { Var in = q.json(); Var out; out["got"] = in; out["n"] = in.ok() ? in["n"] : Var(); out["s"] = "a\"\\/\n\x01"; r.put(out); }
+		else if (p == "/json") { Var in = q.json(); Var out; out["got"] = in; out["n"] = in.has("n") ? in["n"] : Var(); /* no in["n"] on a value without it: that would insert into the Dic shared with out (C04 grow_while_shared) */ out["s"] = "a\"\\/\n\x01"; r.put(out); }
 		else if (p == "/stream") { // body streamed with chunked transfer encoding: n bytes written in `pieces` write() calls, then the last-chunk marker
 			int n = q.query("n"), pieces = max(1, (int)q.query("p")); std::string body = bodyOf(n, 7);
 			r.setHeader("Transfer-Encoding", "chunked"); r.setHeader("X-Streamed", "yes");
@@ -47,11 +64,17 @@ struct Srv : public HttpServer {
 			if (n == 0) r.sendHeaders();
 			r.socket() << "0\r\n\r\n";
 		}
+		else if (p == "/redir") { // a chain of n redirects with status c that ends at /echo
+			int n = q.query("n"), c = q.query("c");
+			r.setCode(c); r.setHeader("Location", n > 1 ? String(fmt(BASEURL "/redir?n=%d&c=%d", n - 1, c).c_str()) : String(BASEURL "/echo?code=201&k=end")); r.put("moved");
+		}
 		else if (p == "/f.txt") { r.put(File((g_root + "/f.txt").c_str())); }
+		else if (p == "/missing.txt") { r.put(File((g_root + "/missing.txt").c_str())); }
 		else { r.setCode(404); r.put("nope"); }
 	}
 };
-struct Acceptor : public Thread { Srv* srv; Socket* lst; int n; void run() { for (int i = 0; i < n; i++) { Socket c = lst->accept(); if (c.handle() < 0) break; ((SocketServer*)srv)->serve(c); c.close(); } } };
+// serves n connections one after the other; with n < 0: connections until `stop` is set (for clients that decide themselves how many connections they make)
+struct Acceptor : public Thread { Srv* srv; Socket* lst; int n; volatile bool stop; Acceptor() : n(1), stop(false) {} void run() { for (int i = 0; n < 0 || i < n; i++) { if (n < 0) { while (!stop && !lst->waitInput(1.0)) {} if (stop) break; } Socket c = lst->accept(); if (c.handle() < 0) break; ((SocketServer*)srv)->serve(c); c.close(); } } };
 struct ClientT : public Thread { std::function<void()> f; void run() { f(); } };
 
 struct Job { std::string name; int bound; std::function<std::string()> body; int cap; Job() : bound(0), cap(4) {} };
@@ -70,7 +93,7 @@ static void runJob(const Job& j, const std::string* replay) {
 	auto after = [&](const vsched::Result& x) { vf::add(C_EXEC); vf::add(C_POINTS, x.points.size()); if (x.preemptions) vf::add(W_PREEMPT); if (vnet::open_fds()) verdict += fmt("%d descriptor(s) left open; ", vnet::open_fds()); std::string sig = "http_exchange"; if (verdict.compare(0, 5, "[sig=") == 0) sig = verdict.substr(5, verdict.find(']') - 5); if (!verdict.empty()) vf::violation(sig, j.name + ": " + verdict + (x.choices.size() < 500 ? "schedule " + x.trace() : fmt("schedule of %d choices", (int)x.choices.size())), j.name + "|" + x.trace()); };
 	vsched::set_early_timeouts(false);
 	if (replay) { vsched::Result x = vsched::run_once(vsched::parse_schedule(*replay), body, 200000); after(x); }
-	else { double t0 = vf::now_s(); vsched::ExploreStats st = vsched::explore(body, after, j.bound, 0, 200000); vf::add(C_JOBS); vf::add(C_EVAL); vf::add(C_DIST); { static int cst = vf::counter("states"); vf::add(cst, st.distinct_states); } if (getenv("VF_DEBUG")) if (FILE* df = fopen(getenv("VF_DEBUG"), "a")) fprintf(df, "JOB %s exec %llu maxpts %llu %.1fs\n", j.name.c_str(), (unsigned long long)st.executions, (unsigned long long)st.max_points, vf::now_s() - t0), fclose(df); }
+	else { double t0 = vf::now_s(); vsched::ExploreStats st = vsched::explore(body, after, j.bound, 0, 200000); if (!st.complete) vf::cap_hit("schedule exploration of " + j.name + " stopped early"); vf::add(C_JOBS); vf::add(C_EVAL); vf::add(C_DIST); { static int cst = vf::counter("states"); vf::add(cst, st.distinct_states); } if (getenv("VF_DEBUG")) if (FILE* df = fopen(getenv("VF_DEBUG"), "a")) fprintf(df, "JOB %s exec %llu maxpts %llu %.1fs\n", j.name.c_str(), (unsigned long long)st.executions, (unsigned long long)st.max_points, vf::now_s() - t0), fclose(df); }
 	vsched::set_early_timeouts(true);
 }
 
@@ -82,32 +105,100 @@ static std::string cmpSeen(const Seen& s, const std::string& m, const std::strin
 	if (s.body != b) e += fmt("handler saw a %d-byte body instead of the %d bytes sent (%s vs %s); ", (int)s.body.size(), (int)b.size(), vf::hex(s.body).substr(0, 60).c_str(), vf::hex(b).substr(0, 60).c_str());
 	return e;
 }
+// decoded query values: want is "k=v|k=v" (already decoded)
+static std::string cmpQuery(const Seen& s, const char* want) {
+	std::map<std::string, std::string> w; std::string t = want; size_t p = 0;
+	while (p <= t.size() && !t.empty()) { size_t q = t.find('|', p); if (q == std::string::npos) q = t.size(); std::string kv = t.substr(p, q - p); size_t eq = kv.find('='); w[kv.substr(0, eq)] = kv.substr(eq + 1); p = q + 1; }
+	wit(W_QUERYVALS);
+	if (s.qv == w) return "";
+	std::string got; for (std::map<std::string, std::string>::const_iterator i = s.qv.begin(); i != s.qv.end(); ++i) got += "'" + i->first + "'='" + i->second + "' ";
+	return "handler saw the decoded query values " + got + "instead of " + want + "; ";
+}
+struct Listener { Srv srv; Socket lst; Acceptor acc; Listener(int n = 1) { lst.bind("127.0.0.1", 8000); lst.listen(2); acc.srv = &srv; acc.lst = &lst; acc.n = n; acc.start(); } void done() { acc.stop = true; acc.join(); lst.close(); } };
+static std::string bodyStr(const HttpResponse& res) { const ByteArray& rb = res.body(); return std::string((const char*)rb.data(), rb.length()); }
 
-// S1: library client <-> library server, echo
+// S1: library client <-> library server, echo. The path is sent percent-encoded, the query has encoded values, '+', an encoded key
+// and an empty value; one request header is given in lower case (headers passed to the constructor go on the wire as they are).
+static const char* ECHO_Q = "&k=a%20b+c%26d&%6b2=%3D&e=";
 static Job echoJob(const char* method, int len, int code, int bound) {
 	Job j; j.name = fmt("echo.%s.%d.%d.b%d", method, len, code, bound); j.bound = bound;
 	std::string m = method;
 	j.body = [m, len, code]() {
 		std::string e;
-		Srv srv; Socket lst; lst.bind("127.0.0.1", 8000); lst.listen(2);
-		Acceptor acc; acc.srv = &srv; acc.lst = &lst; acc.n = 1; acc.start();
+		Listener L;
 		std::string body = bodyOf(len, 1);
+		bool autoOptions = false;
 		{
-			Dic<> h; h["X-Token"] = "tok 1;=,"; h["X-Empty-Ok"] = "x";
-			HttpRequest req(m.c_str(), fmt("http://127.0.0.1:8000/echo?code=%d&k=a%%20b", code).c_str(), ByteArray((const byte*)body.data(), (int)body.size()), h);
-			HttpResponse res = Http::request(req);
-			if (res.code() != code) e += fmt("client saw status %d instead of %d; ", res.code(), code);
-			const ByteArray& rb = res.body(); std::string got((const char*)rb.data(), rb.length());
-			std::string want = m == "GET" && len == 0 ? "" : body;
-			if (got != want) e += fmt("client received a %d-byte body instead of %d bytes; ", (int)got.size(), (int)want.size());
-			if (res.header("X-Method") != m.c_str()) e += "response header X-Method lost or changed; ";
-			if (res.header("x-token") != "tok 1;=,") e += "response header X-Token (case-insensitive lookup) is '" + vfx::S(res.header("x-token")) + "'; ";
-			if (res.header("X-Special") != "v;=, \"q\" :/?#[]@!$&'()*+%") e += "response header with printable specials changed: '" + vfx::S(res.header("X-Special")) + "'; ";
-			if (res.header("X-Len") != String(len)) e += "X-Len; ";
+			// four headers: with exactly 3 (or 6, 12) the constructor's header copy shares the caller's Dic and the added Content-Length grows it (see hdr3Job)
+			Dic<> h; h["X-Token"] = "tok 1;=,"; h["X-Empty-Ok"] = "x"; h["x-lower"] = "lv"; h["X-Four"] = "4";
+			String url = fmt(BASEURL "/ec%%68o?code=%d%s", code, ECHO_Q).c_str(); ByteArray ba((const byte*)body.data(), (int)body.size());
+			HttpResponse res;
+			if (m == "DELETE" && len == 0) res = Http::delet(url, h);
+			else if (m == "PATCH") res = Http::patch(url, ba, h);
+			else { HttpRequest req(m.c_str(), url, ba, h); res = Http::request(req); }
+			std::string got = bodyStr(res);
+			if (res.hasHeader("Content-Length") && (int)res.header("Content-Length") != (int)got.size()) e += "client received " + fmt("%d", (int)got.size()) + " body bytes of a response that announces Content-Length " + vfx::S(res.header("Content-Length")) + "; ";
+			if (m == "OPTIONS" && res.code() == 200 && res.header("X-Method") == "" && res.header("Allow").contains("OPTIONS") && got.empty()) { autoOptions = true; wit(W_OPTIONS_AUTO); } // the server answers OPTIONS itself (HttpServer::handleOptions)
+			else {
+				if (res.code() != code) e += fmt("client saw status %d instead of %d; ", res.code(), code);
+				std::string want = m == "GET" && len == 0 ? "" : body;
+				if (got != want) e += fmt("client received a %d-byte body instead of %d bytes; ", (int)got.size(), (int)want.size());
+				if (res.header("X-Method") != m.c_str()) e += "response header X-Method lost or changed; ";
+				if (res.header("x-token") != "tok 1;=,") e += "response header X-Token (case-insensitive lookup) is '" + vfx::S(res.header("x-token")) + "'; ";
+				if (res.header("X-Special") != "v;=, \"q\" :/?#[]@!$&'()*+%") e += "response header with printable specials changed: '" + vfx::S(res.header("X-Special")) + "'; ";
+				if (res.header("X-Len") != String(len)) e += "X-Len; ";
+			}
 		}
-		acc.join(); lst.close();
-		if (srv.seen.size() != 1) e += fmt("handler invoked %d times; ", (int)srv.seen.size());
-		else { e += cmpSeen(srv.seen[0], m, "/echo", fmt("code=%d&k=a%%20b", code), body); if (srv.seen[0].headers["X-Token"] != "tok 1;=,") e += "request header X-Token lost or changed; "; }
+		L.done();
+		Srv& srv = L.srv;
+		if (autoOptions) { if (!srv.seen.empty()) e += "OPTIONS answered by the server itself and also passed to the handler; "; }
+		else if (srv.seen.size() != 1) e += fmt("handler invoked %d times; ", (int)srv.seen.size());
+		else {
+			e += cmpSeen(srv.seen[0], m, "/echo", fmt("code=%d%s", code, ECHO_Q), body); wit(W_PCTPATH);
+			e += cmpQuery(srv.seen[0], fmt("code=%d|k=a b c&d|k2==|e=", code).c_str());
+			if (srv.seen[0].headers["X-Token"] != "tok 1;=,") e += "request header X-Token lost or changed; ";
+			if (srv.seen[0].hLower != "lv") e += "request header sent as 'x-lower: lv' is seen by the handler as '" + srv.seen[0].hLower + "'; "; else wit(W_LOWER_HDR);
+			if (m != "GET" && m != "POST" && m != "PUT") wit(W_METHODS);
+		}
+		return e;
+	};
+	return j;
+}
+// S1a: the URL carries a fragment (with a '?' inside): the handler must see the path and the query before the '#'
+static Job fragmentJob(int variant, int bound) { // variant 1: no query at all, the only '?' is inside the fragment
+	Job j; j.name = variant ? fmt("fragment.%d.b%d", variant, bound) : fmt("fragment.b%d", bound); j.bound = bound;
+	j.body = [variant]() {
+		std::string e; Listener L; int code = variant ? 200 : 201;
+		{
+			HttpResponse res = Http::get(variant ? BASEURL "/echo#f?code=404" : BASEURL "/echo?code=201&x=1%23#f?y=2");
+			if (res.code() != code) e += fmt("client saw status %d instead of %d; ", res.code(), code);
+		}
+		L.done();
+		if (L.srv.seen.size() != 1) e += fmt("handler invoked %d times; ", (int)L.srv.seen.size());
+		else { e += cmpSeen(L.srv.seen[0], "GET", "/echo", variant ? "" : "code=201&x=1%23", ""); e += cmpQuery(L.srv.seen[0], variant ? "" : "code=201|x=1#"); wit(W_FRAGMENT); }
+		return e;
+	};
+	return j;
+}
+// S1c: a request built from a header Dic of exactly three entries and a body: the constructor keeps a shared handle on the caller's Dic
+// and adds Content-Length to it, which reallocates the block under the caller (the C01 defect "grow_while_shared" reached through Http.h)
+static Job hdr3Job(int bound) {
+	Job j; j.name = fmt("hdr3.b%d", bound); j.bound = bound;
+	j.body = []() {
+		std::string e; Listener L; std::string body = bodyOf(5, 1);
+		{
+			Dic<> h; h["X-Token"] = "t3"; h["X-A"] = "a"; h["X-B"] = "b";
+			{
+				HttpRequest req("POST", BASEURL "/echo?code=201", ByteArray((const byte*)body.data(), (int)body.size()), h);
+				HttpResponse res = Http::request(req);
+				if (res.code() != 201 || bodyStr(res) != body || res.header("X-Token") != "t3") e += fmt("request with three headers: client saw status %d and %d bytes; ", res.code(), res.body().length());
+			}
+			if (h.length() != 3) e += fmt("the caller's header set has %d entries after the request was built from it; ", h.length());
+		}
+		if (vf::asan_tripped() && vf::asan_what().find("heap-use-after-free") != std::string::npos) { vf::asan_clear(); e = classified("headers_grow_while_shared", "HttpRequest(method, url, body, headers) with exactly 3 headers: the request shares the caller's Dic and adding Content-Length reallocates it: heap-use-after-free when the caller's Dic is used or destroyed") + e; }
+		L.done();
+		if (L.srv.seen.size() != 1) e += fmt("handler invoked %d times; ", (int)L.srv.seen.size()); else { e += cmpSeen(L.srv.seen[0], "POST", "/echo", "code=201", body); if (L.srv.seen[0].headers["X-B"] != "b" || L.srv.seen[0].headers["X-Token"] != "t3") e += "request headers lost; "; }
+		wit(W_HDR3);
 		return e;
 	};
 	return j;
@@ -116,17 +207,16 @@ static Job echoJob(const char* method, int len, int code, int bound) {
 static Job streamJob(int len, int pieces, int bound, bool big = false) {
 	Job j; j.name = fmt("stream.%d.%d.b%d", len, pieces, bound); j.bound = bound; if (big) j.cap = 65536;
 	j.body = [len, pieces]() {
-		std::string e; Srv srv; Socket lst; lst.bind("127.0.0.1", 8000); lst.listen(2);
-		Acceptor acc; acc.srv = &srv; acc.lst = &lst; acc.n = 1; acc.start();
+		std::string e; Listener L;
 		{
-			HttpResponse res = Http::get(fmt("http://127.0.0.1:8000/stream?n=%d&p=%d", len, pieces).c_str());
-			const ByteArray& rb = res.body(); std::string got((const char*)rb.data(), rb.length()), want = bodyOf(len, 7);
+			HttpResponse res = Http::get(fmt(BASEURL "/stream?n=%d&p=%d", len, pieces).c_str());
+			std::string got = bodyStr(res), want = bodyOf(len, 7);
 			if (res.code() != 200) e += fmt("client saw status %d; ", res.code());
 			if (got != want) { size_t d = 0; while (d < got.size() && d < want.size() && got[d] == want[d]) d++; e += fmt("chunked response of %d bytes written in %d piece(s): client received %d bytes, first difference at byte %d; ", len, pieces, (int)got.size(), (int)d); }
 			if (res.header("X-Streamed") != "yes") e += "header of a streamed response lost; ";
-			vf::add(W_CHUNKED_RESP);
+			wit(W_CHUNKED_RESP);
 		}
-		acc.join(); lst.close();
+		L.done();
 		return e;
 	};
 	return j;
@@ -135,104 +225,329 @@ static Job streamJob(int len, int pieces, int bound, bool big = false) {
 static Job jsonJob(int n, int bound) {
 	Job j; j.name = fmt("json.%d.b%d", n, bound); j.bound = bound;
 	j.body = [n]() {
-		std::string e; Srv srv; Socket lst; lst.bind("127.0.0.1", 8000); lst.listen(2);
-		Acceptor acc; acc.srv = &srv; acc.lst = &lst; acc.n = 1; acc.start();
+		std::string e; Listener L;
 		{
 			Var v; v["n"] = n; v["list"] = Var::array({ 1, 2.5, "x" }); v["t"] = String::repeat('j', n);
-			HttpResponse res = Http::post("http://127.0.0.1:8000/json", v);
+			HttpResponse res = Http::post(BASEURL "/json", v);
 			Var r = res.json();
 			if (res.code() != 200 || !r.ok()) e += fmt("JSON response not received (code %d); ", res.code());
 			else { if (!(r["got"] == v)) e += "handler did not see the JSON value that was posted; "; if ((int)r["n"] != n) e += "json n; "; if (r["s"].toString() != "a\"\\/\n\x01") e += "JSON string with quotes/backslash/control characters changed on the way back; "; }
 			if (!res.header("Content-Type").startsWith("application/json")) e += "Content-Type of a JSON response; ";
-			vf::add(W_JSON);
+			wit(W_JSON);
 		}
-		acc.join(); lst.close();
+		L.done();
 		return e;
 	};
 	return j;
 }
-// S3: file body with a byte range [b,e] of a 6-byte file "012345"
+// S2b: a Var posted as application/x-www-form-urlencoded; the handler reads it with json() (which falls back to the query parser)
+static Job formJob(int bound) {
+	Job j; j.name = fmt("form.b%d", bound); j.bound = bound;
+	j.body = []() {
+		std::string e; Listener L;
+		{
+			Var v; v["a"] = "x y&z=+%"; v["b"] = "1"; v["c d"] = "e";
+			Dic<> h; h["Content-Type"] = "application/x-www-form-urlencoded";
+			HttpResponse res = Http::post(BASEURL "/json", v, h);
+			Var r = res.json();
+			if (res.code() != 200 || !r.ok()) e += fmt("response to a form post not received (code %d); ", res.code());
+			else { Var g = r["got"]; if (!g.is(Var::DIC) || g.length() != 3 || g["a"].toString() != "x y&z=+%" || g["b"].toString() != "1" || g["c d"].toString() != "e") e += "handler did not see the form fields that were posted, but " + vfx::S(Json::encode(g)) + "; "; }
+			wit(W_FORM);
+		}
+		L.done();
+		if (L.srv.seen.size() == 1 && L.srv.seen[0].headers["Content-Type"] != "application/x-www-form-urlencoded") e += "Content-Type of the form post seen as '" + L.srv.seen[0].headers["Content-Type"] + "'; ";
+		return e;
+	};
+	return j;
+}
+// S3: file body with a byte range of the 6-byte file "012345". RFC 7233 decides what is demanded for a Range header value:
+//   first-last / first-   satisfiable when first < 6 and first <= last: 206, bytes [first, min(last,5)], Content-Range "bytes f-l/6"
+//   -n (suffix)           n > 0: the last min(n,6) bytes, as 206 as above, or the whole file with 200 (a server may ignore Range)
+//   first >= 6, -0        unsatisfiable: 416 with "Content-Range: bytes */6" and no body, or the whole file with 200
+//   several ranges, other units, garbage: the whole file with 200 (Range ignored), or 206 multipart/byteranges
+//   first > last          not a valid specification: only termination and memory safety
+struct RangeWant { int kind; int first, last; }; // kind 0 whole file (no header), 1 satisfiable, 2 unsatisfiable, 3 may be ignored (whole file), 4 nothing demanded, 5 satisfiable suffix
+static RangeWant rangeWant(const std::string& hv) {
+	RangeWant w = { 3, 0, 0 };
+	if (hv.empty()) { w.kind = 0; return w; }
+	if (hv.compare(0, 6, "bytes=") != 0 || hv.find(',') != std::string::npos) return w;
+	std::string sp = hv.substr(6); size_t d = sp.find('-'); if (d == std::string::npos) return w;
+	std::string a = sp.substr(0, d), b = sp.substr(d + 1);
+	for (size_t i = 0; i < a.size(); i++) if (!isdigit((unsigned char)a[i])) return w;
+	for (size_t i = 0; i < b.size(); i++) if (!isdigit((unsigned char)b[i])) return w;
+	if (a.empty()) { if (b.empty()) return w; int n = atoi(b.c_str()); if (n == 0) { w.kind = 2; return w; } w.kind = 5; w.first = n >= 6 ? 0 : 6 - n; w.last = 5; return w; }
+	int f = atoi(a.c_str()), l = b.empty() ? 5 : atoi(b.c_str());
+	if (!b.empty() && f > l) { w.kind = 4; return w; }
+	if (f >= 6) { w.kind = 2; return w; }
+	w.kind = 1; w.first = f; w.last = l > 5 ? 5 : l; return w;
+}
+static std::string rangeBody(const std::string& hv) {
+	std::string e; Listener L;
+	{
+		Dic<> h; if (!hv.empty()) h["Range"] = hv.c_str();
+		HttpResponse res = Http::get(BASEURL "/f.txt", h);
+		std::string got = bodyStr(res), cr = vfx::S(res.header("Content-Range"));
+		RangeWant w = rangeWant(hv);
+		bool whole = res.code() == 200 && got == FILE6 && !res.hasHeader("Content-Range");
+		std::string what = fmt("'Range: %s' on a 6-byte file: status %d, Content-Range '%s', body '%s'", hv.c_str(), res.code(), cr.c_str(), got.c_str());
+		if (w.kind == 0) { if (!whole) e += fmt("whole file: code %d, %d bytes; ", res.code(), (int)got.size()); }
+		else if (w.kind == 1 || w.kind == 5) {
+			std::string want = FILE6.substr(w.first, w.last - w.first + 1);
+			wit(w.kind == 5 ? W_RANGE_SUFFIX : W_RANGE206); if (hv[hv.size() - 1] == '-') wit(W_RANGE_OPEN);
+			bool good = res.code() == 206 && got == want && cr == fmt("bytes %d-%d/6", w.first, w.last);
+			if (good || (w.kind == 5 && whole)) {}
+			else if (hv == "bytes=0-0" && res.code() == 206 && got == FILE6) e = classified("range_0_0", "range bytes=0-0 of a 6-byte file returns the whole file '012345' with status 206 instead of the first byte") + e; // (0,0) is the API's "no range" sentinel
+			else if (w.kind == 5) e = classified("range_suffix", what + ": a suffix range (the last n bytes) is answered as if it were bytes=0-n; expected 206 with '" + want + "' or the whole file with 200") + e;
+			else e += what + fmt(", expected 206 with '%s' and Content-Range 'bytes %d-%d/6'; ", want.c_str(), w.first, w.last);
+		}
+		else if (w.kind == 2) {
+			wit(W_RANGE416);
+			if (whole) {}
+			else if (hv.compare(0, 7, "bytes=-") == 0 && res.code() == 206) e = classified("range_suffix", what + ": a suffix range of length 0 is answered as if it were bytes=0-0; expected 416 or the whole file with 200") + e;
+			else if (res.code() == 416 && (!got.empty() || cr != "bytes */6")) e = classified("range_416_body", what + ": an unsatisfiable range must be answered with 416, 'Content-Range: bytes */6' and no file content") + e;
+			else if (res.code() != 416) e += what + ", expected 416; ";
+		}
+		else if (w.kind == 3) {
+			wit(W_RANGE_IGNORED);
+			if (whole || (res.code() == 206 && res.header("Content-Type").startsWith("multipart/byteranges")) || (res.code() == 206 && got == FILE6 && cr == "bytes 0-5/6")) {} // or the complete file as a (consistent) partial response
+			else if (res.code() == 0) e = classified("range_no_response", what + ": a Range header the server does not support (several ranges, another unit) must be ignored, but no response is sent at all") + e;
+			else e += what + ", expected the whole file with 200; ";
+		}
+	}
+	L.done();
+	return e;
+}
 static Job rangeJob(int b, int eIdx, int bound) {
 	Job j; j.name = fmt("range.%d.%d.b%d", b, eIdx, bound); j.bound = bound;
-	j.body = [b, eIdx]() {
-		std::string e; Srv srv; Socket lst; lst.bind("127.0.0.1", 8000); lst.listen(2);
-		Acceptor acc; acc.srv = &srv; acc.lst = &lst; acc.n = 1; acc.start();
+	std::string hv = b >= 0 ? fmt("bytes=%d-%d", b, eIdx) : std::string();
+	j.body = [hv]() { return rangeBody(hv); };
+	return j;
+}
+static Job rangeHdrJob(const std::string& hv, int bound) {
+	Job j; j.name = "rangeh." + hv + fmt(".b%d", bound); j.bound = bound;
+	j.body = [hv]() { return rangeBody(hv); };
+	return j;
+}
+// S3b: a file the handler names does not exist: the server answers 404 itself
+static Job missingJob(int bound) {
+	Job j; j.name = fmt("missing.b%d", bound); j.bound = bound;
+	j.body = []() {
+		std::string e; Listener L;
+		{ HttpResponse res = Http::get(BASEURL "/missing.txt"); if (res.code() != 404) e += fmt("file body of a file that does not exist: client saw status %d with %d bytes instead of 404; ", res.code(), res.body().length()); if (res.hasHeader("Content-Length") && (int)res.header("Content-Length") != res.body().length()) e += "body length differs from Content-Length; "; wit(W_MISSING); }
+		L.done();
+		return e;
+	};
+	return j;
+}
+// S3c: file bodies from the client: PUT of a File, multipart upload(), and download() into a file (all three through putFile / the sinks)
+static Job putFileJob(int bound) {
+	Job j; j.name = fmt("putfile.b%d", bound); j.bound = bound;
+	j.body = []() {
+		std::string e; Listener L;
 		{
-			Dic<> h; if (b >= 0) h["Range"] = fmt("bytes=%d-%d", b, eIdx).c_str();
-			HttpResponse res = Http::get("http://127.0.0.1:8000/f.txt", h);
-			const ByteArray& rb = res.body(); std::string got((const char*)rb.data(), rb.length());
-			std::string file = "012345";
-			if (b < 0) { if (res.code() != 200 || got != file) e += fmt("whole file: code %d, %d bytes; ", res.code(), (int)got.size()); }
-			else if (b <= eIdx && b < 6) { // satisfiable (RFC 7233): last-byte-pos beyond the end is clamped
-				int last = eIdx < 5 ? eIdx : 5; std::string want = file.substr(b, last - b + 1);
-				vf::add(W_RANGE206);
-				if (b == 0 && eIdx == 0 && res.code() == 206 && got == file) { // classified defect: (0,0) is the API's "no range" sentinel
-					if (vf::known("range_0_0")) vf::known_hit("range_0_0", "GET with Range: bytes=0-0 returns the whole file"); else e += "[sig=range_0_0] range bytes=0-0 of a 6-byte file returns the whole file '012345' with status 206 instead of the first byte; ";
-				}
-				else if (res.code() != 206 || got != want) e += fmt("range bytes=%d-%d of a 6-byte file: status %d with body '%s', expected 206 with '%s'; ", b, eIdx, res.code(), got.c_str(), want.c_str());
-				else if (res.header("Content-Range") != fmt("bytes %d-%d/6", b, last).c_str()) e += "Content-Range is '" + vfx::S(res.header("Content-Range")) + "'; ";
-			} else if (b >= 6 && b <= eIdx) { vf::add(W_RANGE416); if (res.code() != 416 && !(res.code() == 200 && got == file)) e += fmt("unsatisfiable range bytes=%d-%d: status %d with %d bytes; ", b, eIdx, res.code(), (int)got.size()); }
-			else { /* first > last: not a valid range specification; only termination and memory safety are required */ }
+			Dic<> h; h["X-Token"] = "t";
+			HttpResponse res = Http::put(BASEURL "/echo?code=201", File((g_root + "/f.txt").c_str()), h);
+			if (res.code() != 201 || bodyStr(res) != FILE6) e += fmt("PUT of a 6-byte file: client saw status %d and %d bytes back; ", res.code(), res.body().length());
+			wit(W_FILE_REQ);
 		}
-		acc.join(); lst.close();
+		L.done();
+		if (L.srv.seen.size() != 1) e += fmt("handler invoked %d times; ", (int)L.srv.seen.size()); else { e += cmpSeen(L.srv.seen[0], "PUT", "/echo", "code=201", FILE6); if (L.srv.seen[0].headers["Content-Length"] != "6") e += "Content-Length of a file body is '" + L.srv.seen[0].headers["Content-Length"] + "'; "; }
+		return e;
+	};
+	return j;
+}
+static Job uploadJob(int bound) {
+	Job j; j.name = fmt("upload.b%d", bound); j.bound = bound;
+	j.body = []() {
+		std::string e; Listener L;
+		{
+			Dic<> h; h["X-Token"] = "up";
+			asl::random.seed(20240607); // the multipart boundary is drawn from the global generator: the same bytes (and state counts) in every run
+			bool ok = Http::upload(BASEURL "/echo?code=200", (g_root + "/f.txt").c_str(), h);
+			if (!ok) e += "upload() of an existing file to a handler that answers 200 returned false; ";
+			wit(W_MULTIPART);
+		}
+		L.done();
+		if (L.srv.seen.size() != 1) e += fmt("handler invoked %d times; ", (int)L.srv.seen.size());
+		else {
+			Seen& s = L.srv.seen[0]; std::string ct = s.headers["Content-Type"], pre = "multipart/form-data; boundary=";
+			if (s.method != "POST" || s.path != "/echo") e += "upload seen as " + s.method + " " + s.path + "; ";
+			if (ct.compare(0, pre.size(), pre) != 0 || ct.size() == pre.size()) e += "Content-Type of an upload is '" + ct + "'; ";
+			else {
+				std::string B = ct.substr(pre.size()), open = "--" + B + "\r\n", close = "\r\n--" + B + "--\r\n", b = s.body; size_t he = b.find("\r\n\r\n");
+				bool good = b.compare(0, open.size(), open) == 0 && he != std::string::npos && b.size() >= he + 4 + close.size() && b.compare(b.size() - close.size(), close.size(), close) == 0;
+				if (!good) e += fmt("multipart body (%d bytes) does not consist of the opening boundary, part headers, content and closing boundary announced in Content-Type: %s; ", (int)b.size(), vf::hex(b).substr(0, 400).c_str());
+				else { std::string part = b.substr(open.size(), he - open.size()), content = b.substr(he + 4, b.size() - close.size() - he - 4); if (content != FILE6) e += "file content inside the multipart body is '" + content + "'; "; if (part.find("filename=\"f.txt\"") == std::string::npos) e += "part headers do not name the file; "; }
+			}
+			if (s.headers["Content-Length"] != fmt("%d", (int)s.body.size())) e += fmt("Content-Length '%s' of an upload whose body has %d bytes; ", s.headers["Content-Length"].c_str(), (int)s.body.size());
+		}
+		return e;
+	};
+	return j;
+}
+static std::string slurp(const std::string& p) { std::string r; if (FILE* f = fopen(p.c_str(), "rb")) { char b[256]; size_t n; while ((n = fread(b, 1, sizeof b, f)) > 0) r.append(b, n); fclose(f); } else r = "<no file>"; return r; }
+static Job downloadJob(int what, int bound) {
+	Job j; j.name = fmt("download.%d.b%d", what, bound); j.bound = bound;
+	j.body = [what]() {
+		std::string e; Listener L;
+		std::string dst = g_root + fmt("/dl.%d", (int)getpid()); unlink(dst.c_str());
+		{
+			Dic<> h; if (what == 3) h["Range"] = "bytes=1-3";
+			const char* url = what == 0 || what == 3 ? BASEURL "/f.txt" : what == 1 ? BASEURL "/stream?n=13&p=3" : BASEURL "/len?n=17";
+			std::string want = what == 0 ? FILE6 : what == 3 ? "123" : what == 1 ? bodyOf(13, 7) : bodyOf(17, 2);
+			bool ok = Http::download(url, dst.c_str(), Http::Progress(), h);
+			std::string got = slurp(dst);
+			if (!ok) e += "download() returned false; ";
+			if (got != want) e += fmt("download() of %s stored %d bytes (%s) instead of the %d bytes served; ", url, (int)got.size(), vf::hex(got).substr(0, 60).c_str(), (int)want.size());
+			wit(W_DOWNLOAD);
+		}
+		unlink(dst.c_str());
+		L.done();
+		return e;
+	};
+	return j;
+}
+// S3d: redirects: the handler answers `hops` times with status `code` and a Location, then with the echo. Each hop must see the
+// method (and for 307/308 the body) again; the client observes the final response. With following switched off it observes the
+// redirect itself. The library gives up after 3 hops (421 "Too many redirects"): with 4 hops either that or the final response.
+static Job redirectJob(int code, int hops, bool follow, int bound) {
+	Job j; j.name = fmt("redir.%d.%d.%d.b%d", code, hops, follow ? 1 : 0, bound); j.bound = bound;
+	j.body = [code, hops, follow]() {
+		std::string e; Listener L(-1);
+		bool keepBody = code == 307 || code == 308; std::string m = keepBody ? "POST" : "GET", body = keepBody ? bodyOf(5, 2) : std::string();
+		int rc;
+		{
+			Dic<> h; h["X-Token"] = "r";
+			HttpRequest req(m.c_str(), fmt(BASEURL "/redir?n=%d&c=%d", hops, code).c_str(), h); if (keepBody) req.put(ByteArray((const byte*)body.data(), (int)body.size()));
+			req.setFollowRedirects(follow);
+			HttpResponse res = Http::request(req); rc = res.code();
+			std::string got = bodyStr(res);
+			if (!follow) { wit(W_REDIRECT_OFF); if (rc != code || got != "moved" || !res.header("Location").startsWith(BASEURL "/")) e += fmt("redirects not followed: client saw status %d, body '%s', Location '%s' instead of the %d the handler produced; ", rc, got.c_str(), *res.header("Location"), code); }
+			else if (rc == 421 && hops > 3) wit(W_REDIRECT_LIMIT);
+			else if (rc != 201 || got != body || res.header("X-Method") != m.c_str() || res.header("X-Token") != "r") e += fmt("after %d redirect(s) with status %d the client saw status %d, a %d-byte body, X-Method '%s' instead of the final response (201, %d bytes, %s); ", hops, code, rc, (int)got.size(), *res.header("X-Method"), (int)body.size(), m.c_str());
+		}
+		L.done();
+		std::vector<Seen>& s = L.srv.seen; size_t want = !follow ? 1 : rc == 421 ? 4 : hops + 1;
+		if (s.size() != want) e += fmt("handler invoked %d times instead of %d; ", (int)s.size(), (int)want);
+		else for (size_t i = 0; i < s.size(); i++) {
+			bool last = follow && rc != 421 && i + 1 == s.size();
+			e += cmpSeen(s[i], m, last ? "/echo" : "/redir", last ? "code=201&k=end" : fmt("n=%d&c=%d", hops - (int)i, code), body);
+			if (s[i].headers["X-Token"] != "r") e += fmt("request header lost at hop %d; ", (int)i);
+			if (i > 0) wit(W_REDIRECT_HOPS);
+		}
 		return e;
 	};
 	return j;
 }
 // raw helpers
-static void rawSend(Socket& s, const std::string& bytes, const std::vector<int>& cuts) { size_t p = 0; for (size_t i = 0; i <= cuts.size(); i++) { size_t q = i < cuts.size() ? (size_t)cuts[i] : bytes.size(); if (q > p) s.write(bytes.data() + p, (int)(q - p)); p = q; vsched::point(); } }
+// the bytes are written in pieces; between two pieces the writer pauses until every other thread has done all it can do with what
+// has arrived so far (a timed sleep: no preemption needed), so the reader really sees the stream end at the cut
+static void rawSend(Socket& s, const std::string& bytes, const std::vector<int>& cuts) { size_t p = 0; for (size_t i = 0; i <= cuts.size(); i++) { size_t q = i < cuts.size() ? (size_t)cuts[i] : bytes.size(); if (q > p) s.write(bytes.data() + p, (int)(q - p)); p = q; if (i < cuts.size()) { usleep(1000); wit(W_FRAGMENTED); } vsched::point(); } }
 static std::string rawReadAll(Socket& s) { std::string r; char buf[64]; for (;;) { if (!s.waitInput(5.0)) break; int a = s.available(); if (a <= 0) break; int n = s.read(buf, a < 64 ? a : 64); if (n <= 0) break; r.append(buf, n); } return r; }
-// S4/S6: raw client -> library server: request bytes cut at `cut`, optional chunked body, optional second pipelined request
+struct RawResp { std::string proto; int code; std::map<std::string, std::string> h; std::string body; };
+static std::string lower(std::string s) { for (size_t i = 0; i < s.size(); i++) s[i] = (char)tolower((unsigned char)s[i]); return s; }
+// splits the bytes a server wrote into responses (status line, header fields, Content-Length body; 1xx responses have no body)
+static std::string parseResponses(const std::string& s, std::vector<RawResp>& out) {
+	size_t p = 0;
+	while (p < s.size()) {
+		RawResp r; size_t eol = s.find("\r\n", p); if (eol == std::string::npos) return fmt("response %d: no status line in '%s'; ", (int)out.size(), vf::hex(s.substr(p, 40)).c_str());
+		std::string st = s.substr(p, eol - p); size_t sp = st.find(' '); if (sp == std::string::npos || st.compare(0, 5, "HTTP/") != 0) return "status line '" + st.substr(0, 40) + "'; ";
+		r.proto = st.substr(0, sp); r.code = atoi(st.c_str() + sp + 1); p = eol + 2;
+		for (;;) { eol = s.find("\r\n", p); if (eol == std::string::npos) return fmt("response %d: header block not terminated; ", (int)out.size()); std::string l = s.substr(p, eol - p); p = eol + 2; if (l.empty()) break; size_t c = l.find(':'); if (c == std::string::npos) return "header line '" + l + "'; "; std::string v = l.substr(c + 1); while (!v.empty() && v[0] == ' ') v.erase(0, 1); r.h[lower(l.substr(0, c))] = v; }
+		if (r.code / 100 != 1) { if (!r.h.count("content-length")) return fmt("response %d has no Content-Length; ", (int)out.size()); size_t n = atoi(r.h["content-length"].c_str()); if (s.size() - p < n) return fmt("response %d announces %d body bytes, %d arrived; ", (int)out.size(), (int)n, (int)(s.size() - p)); r.body = s.substr(p, n); p += n; }
+		out.push_back(r);
+	}
+	return "";
+}
+// S4/S6: raw client -> library server: request bytes cut at `cut`, optional chunked body, optional second pipelined request.
+// Header names are written in lower / upper case in variants 0 and 1 (field names are case-insensitive).
+static void rawClientBytes(int variant, std::string& req, std::string& second) {
+	std::string body = bodyOf(9, 3), chunks = "4\r\n" + body.substr(0, 4) + "\r\n5\r\n" + body.substr(4) + "\r\n0\r\n\r\n", get3 = "GET /len?n=3 HTTP/1.1\r\nHost: h\r\nConnection: close\r\n\r\n";
+	second.clear();
+	if (variant == 0) req = "POST /echo?code=200 HTTP/1.1\r\nhost: h\r\ncontent-length: 9\r\nconnection: close\r\n\r\n" + body;
+	else if (variant == 1) req = "PUT /echo?code=201 HTTP/1.1\r\nHost: h\r\nTRANSFER-ENCODING: chunked\r\nCONNECTION: close\r\n\r\n" + chunks;
+	else if (variant == 2) { req = "POST /echo?code=200 HTTP/1.1\r\nHost: h\r\nContent-Length: 9\r\nConnection: keep-alive\r\n\r\n" + body; second = get3; }
+	else if (variant == 3) { req = "POST /echo?code=200 HTTP/1.1\r\nHost: h\r\nTransfer-Encoding: chunked\r\nConnection: keep-alive\r\n\r\n" + chunks; second = get3; }
+	else if (variant == 4) req = "POST /echo?code=200 HTTP/1.1\r\nHost: h\r\nExpect: 100-continue\r\nContent-Length: 9\r\nConnection: close\r\n\r\n" + body;
+	else if (variant == 5) req = "GET /len?n=3 HTTP/1.0\r\n\r\n";
+	else { req = "GET /missing.txt HTTP/1.1\r\nHost: h\r\nConnection: keep-alive\r\n\r\n"; second = get3; }
+}
+enum { RAWCLIENT_VARIANTS = 7 };
 static Job rawClientJob(int variant, int cut, int bound) {
-	Job j; j.name = fmt("rawclient.%d.%d.b%d", variant, cut, bound); j.bound = bound; if (variant >= 2) j.cap = 4096; // a pipelining client that does not read while it writes needs room for both requests
+	Job j; j.name = fmt("rawclient.%d.%d.b%d", variant, cut, bound); j.bound = bound; if (variant == 2 || variant == 3 || variant == 4 || variant == 6) j.cap = 4096; // a client that does not read while it writes needs room for both requests / for the interim response
 	j.body = [variant, cut]() {
-		std::string e; Srv srv; Socket lst; lst.bind("127.0.0.1", 8000); lst.listen(2);
-		Acceptor acc; acc.srv = &srv; acc.lst = &lst; acc.n = 1; acc.start();
-		std::string body = bodyOf(9, 3), req, second;
-		if (variant == 0) req = "POST /echo?code=200 HTTP/1.1\r\nHost: h\r\nContent-Length: 9\r\nConnection: close\r\n\r\n" + body;
-		else if (variant == 1) { req = "PUT /echo?code=201 HTTP/1.1\r\nHost: h\r\nTransfer-Encoding: chunked\r\nConnection: close\r\n\r\n4\r\n" + body.substr(0, 4) + "\r\n5\r\n" + body.substr(4) + "\r\n0\r\n\r\n"; vf::add(W_CHUNKED_REQ); }
-		else if (variant == 2) { req = "POST /echo?code=200 HTTP/1.1\r\nHost: h\r\nContent-Length: 9\r\nConnection: keep-alive\r\n\r\n" + body; second = "GET /len?n=3 HTTP/1.1\r\nHost: h\r\nConnection: close\r\n\r\n"; vf::add(W_KEEPALIVE); }
-		else { req = "POST /echo?code=200 HTTP/1.1\r\nHost: h\r\nTransfer-Encoding: chunked\r\nConnection: keep-alive\r\n\r\n4\r\n" + body.substr(0, 4) + "\r\n5\r\n" + body.substr(4) + "\r\n0\r\n\r\n"; second = "GET /len?n=3 HTTP/1.1\r\nHost: h\r\nConnection: close\r\n\r\n"; vf::add(W_KEEPALIVE); vf::add(W_CHUNKED_REQ); }
+		std::string e; Listener L;
+		std::string body = bodyOf(9, 3), req, second; rawClientBytes(variant, req, second);
+		if (variant == 1 || variant == 3) wit(W_CHUNKED_REQ);
+		if (!second.empty()) wit(W_KEEPALIVE);
 		std::string resp;
 		{
 			Socket c; if (!c.connect("127.0.0.1", 8000)) e += "raw client could not connect; ";
 			else { std::vector<int> cuts; if (cut > 0 && cut < (int)(req + second).size()) cuts.push_back(cut); rawSend(c, req + second, cuts); resp = rawReadAll(c); c.close(); }
 		}
-		acc.join(); lst.close();
-		size_t expect = variant >= 2 ? 2 : 1;
+		L.done();
+		Srv& srv = L.srv;
+		size_t expect = second.empty() ? 1 : 2;
 		if (srv.seen.size() != expect) e += fmt("handler invoked %d times instead of %d; ", (int)srv.seen.size(), (int)expect);
-		else { e += cmpSeen(srv.seen[0], variant == 1 ? "PUT" : "POST", "/echo", variant == 1 ? "code=201" : "code=200", body); if (variant >= 2) e += cmpSeen(srv.seen[1], "GET", "/len", "n=3", ""); }
-		// the response(s) on the wire: status line and exact body bytes
-		std::string st = variant == 1 ? "HTTP/1.1 201" : "HTTP/1.1 200";
-		if (resp.compare(0, st.size(), st) != 0) e += "first response status line is '" + resp.substr(0, 20) + "'; ";
-		size_t hb = resp.find("\r\n\r\n");
-		if (hb == std::string::npos || resp.compare(hb + 4, body.size(), body) != 0) e += "echoed body bytes differ on the wire; ";
-		if (variant >= 2) { size_t p2 = resp.find("HTTP/1.1 200", hb == std::string::npos ? 0 : hb + 4 + body.size()); if (p2 == std::string::npos) e += "no response to the second pipelined request; "; else { size_t h2 = resp.find("\r\n\r\n", p2); if (h2 == std::string::npos || resp.substr(h2 + 4) != bodyOf(3, 2)) e += "second response body differs; "; } }
+		else {
+			if (variant <= 4) e += cmpSeen(srv.seen[0], variant == 1 ? "PUT" : "POST", "/echo", variant == 1 ? "code=201" : "code=200", body);
+			else if (variant == 5) e += cmpSeen(srv.seen[0], "GET", "/len", "n=3", "");
+			else e += cmpSeen(srv.seen[0], "GET", "/missing.txt", "", "");
+			if (!second.empty()) e += cmpSeen(srv.seen[1], "GET", "/len", "n=3", "");
+			if (variant == 4 && srv.seen[0].headers["Expect"] != "100-continue") e += "Expect header not seen by the handler; ";
+		}
+		// the response(s) on the wire: status and exact body bytes
+		std::vector<RawResp> rs; std::string pe = parseResponses(resp, rs); size_t k = 0;
+		if (!pe.empty()) e += "bytes written by the server: " + pe;
+		else {
+			if (variant == 4) { wit(W_EXPECT_SRV); if (!rs.empty() && rs[0].code == 100) k = 1; } // the interim response may be omitted when the body has already arrived
+			if (variant == 5) wit(W_HTTP10);
+			if (variant == 6) wit(W_MISSING);
+			if (rs.size() != k + expect) e += fmt("%d response(s) on the wire instead of %d; ", (int)rs.size(), (int)(k + expect));
+			else {
+				int code = variant == 1 ? 201 : variant == 6 ? 404 : 200; std::string wb = variant <= 4 ? body : variant == 5 ? bodyOf(3, 2) : rs[k].body;
+				if (rs[k].code != code) e += fmt("first response has status %d instead of %d; ", rs[k].code, code);
+				if (rs[k].body != wb) e += "echoed body bytes differ on the wire; ";
+				if (rs[k].proto != "HTTP/1.1" && !(variant == 5 && rs[k].proto == "HTTP/1.0")) e += "response protocol '" + rs[k].proto + "'; ";
+				if (!second.empty() && (rs[k + 1].code != 200 || rs[k + 1].body != bodyOf(3, 2))) e += fmt("response to the second pipelined request: status %d, %d bytes; ", rs[k + 1].code, (int)rs[k + 1].body.size());
+			}
+		}
 		return e;
 	};
 	return j;
 }
-// S7: raw server -> library client: response bytes (length-framed or chunked) cut at `cut`
+// S7: raw server -> library client: response bytes (length-framed or chunked) cut at `cut`; header names in lower / upper case;
+// variant 3 sends an interim "100 Continue" before the final response (RFC 7231 6.2: a client must be able to parse it)
 struct RawServer : public Thread { Socket* lst; std::string resp; int cut; std::string gotReq; void run() { Socket c = lst->accept(); if (c.handle() < 0) return; // read the request head
 		for (;;) { String l = c.readLine(); gotReq += vfx::S(l) + "\n"; if (l == "\r" || !l.ok()) break; }
 		std::vector<int> cuts; if (cut > 0 && cut < (int)resp.size()) cuts.push_back(cut); rawSend(c, resp, cuts); c.close(); } };
+static std::string rawServerBytes(int variant) {
+	std::string body = bodyOf(11, 4);
+	if (variant == 0) return "HTTP/1.1 200 OK\r\ncontent-length: 11\r\nx-a: b\r\n\r\n" + body;
+	if (variant == 1) return "HTTP/1.1 203 Meh\r\nTRANSFER-ENCODING: chunked\r\nX-A:b\r\n\r\n3\r\n" + body.substr(0, 3) + "\r\n8\r\n" + body.substr(3) + "\r\n0\r\n\r\n";
+	if (variant == 2) return "HTTP/1.1 404 Not Found\r\nContent-Length: 0\r\n\r\n";
+	return "HTTP/1.1 100 Continue\r\n\r\nHTTP/1.1 200 OK\r\nContent-Length: 11\r\nX-A: b\r\n\r\n" + body;
+}
+enum { RAWSERVER_VARIANTS = 4 };
 static Job rawServerJob(int variant, int cut, int bound) {
 	Job j; j.name = fmt("rawserver.%d.%d.b%d", variant, cut, bound); j.bound = bound;
 	j.body = [variant, cut]() {
 		std::string e; Socket lst; lst.bind("127.0.0.1", 8000); lst.listen(2);
 		std::string body = bodyOf(11, 4);
-		RawServer rs; rs.lst = &lst; rs.cut = cut;
-		if (variant == 0) rs.resp = "HTTP/1.1 200 OK\r\nContent-Length: 11\r\nX-A: b\r\n\r\n" + body;
-		else if (variant == 1) { rs.resp = "HTTP/1.1 203 Meh\r\nTransfer-Encoding: chunked\r\nX-A:b\r\n\r\n3\r\n" + body.substr(0, 3) + "\r\n8\r\n" + body.substr(3) + "\r\n0\r\n\r\n"; vf::add(W_CHUNKED_RESP); }
-		else rs.resp = "HTTP/1.1 404 Not Found\r\nContent-Length: 0\r\n\r\n";
+		RawServer rs; rs.lst = &lst; rs.cut = cut; rs.resp = rawServerBytes(variant);
+		if (variant == 1) wit(W_CHUNKED_RESP);
+		if (variant == 3) wit(W_INTERIM_CLI);
 		rs.start();
 		{
-			HttpResponse res = Http::get("http://127.0.0.1:8000/x?y=1");
-			const ByteArray& rb = res.body(); std::string got((const char*)rb.data(), rb.length());
-			int code = variant == 0 ? 200 : variant == 1 ? 203 : 404;
-			if (res.code() != code) e += fmt("client saw status %d instead of %d; ", res.code(), code);
-			if (got != (variant == 2 ? std::string() : body)) e += fmt("client received %d body bytes instead of %d; ", (int)got.size(), variant == 2 ? 0 : 11);
-			if (variant != 2 && res.header("X-A") != "b") e += "response header X-A is '" + vfx::S(res.header("X-A")) + "'; ";
+			HttpResponse res = Http::get(BASEURL "/x?y=1");
+			std::string got = bodyStr(res);
+			int code = variant == 0 || variant == 3 ? 200 : variant == 1 ? 203 : 404;
+			if (variant == 3 && res.code() == 100) e = classified("interim_1xx", "the server sends 'HTTP/1.1 100 Continue' before its final response: the client returns status 100 with an empty body instead of the final response");
+			else {
+				if (res.code() != code) e += fmt("client saw status %d instead of %d; ", res.code(), code);
+				if (got != (variant == 2 ? std::string() : body)) e += fmt("client received %d body bytes instead of %d; ", (int)got.size(), variant == 2 ? 0 : 11);
+				if (variant != 2 && res.header("X-A") != "b") e += "response header X-A is '" + vfx::S(res.header("X-A")) + "'; ";
+			}
 		}
 		rs.join(); lst.close();
 		if (rs.gotReq.compare(0, 22, "GET /x?y=1 HTTP/1.1\r\n") != 0 && rs.gotReq.compare(0, 20, "GET /x?y=1 HTTP/1.1\r") != 0) e += "request line on the wire is '" + rs.gotReq.substr(0, 30) + "'; ";
@@ -240,25 +555,156 @@ static Job rawServerJob(int variant, int cut, int bound) {
 	};
 	return j;
 }
-// S5: two concurrent library clients, the real started server (accept loop + handler threads), stop(true)
-static Job twoClientsJob(int len, int bound) {
-	Job j; j.name = fmt("twoclients.%d.b%d", len, bound); j.bound = bound; j.cap = 65536; // six threads: keep the number of blocking points (forced switches) small
+// S7b: library client that announces "Expect: 100-continue" <-> library server (which then sends an interim response)
+static Job expectJob(int len, int bound) {
+	Job j; j.name = fmt("expect.%d.b%d", len, bound); j.bound = bound; j.cap = 4096; // the client sends its body without waiting for the interim response: both directions need room
 	j.body = [len]() {
+		std::string e; Listener L; std::string body = bodyOf(len, 1);
+		{
+			Dic<> h; h["Expect"] = "100-continue";
+			HttpResponse res = Http::post(BASEURL "/echo?code=201", ByteArray((const byte*)body.data(), (int)body.size()), h);
+			wit(W_INTERIM_CLI);
+			if (res.code() == 100) e = classified("interim_1xx", "POST with 'Expect: 100-continue': the client returns the interim status 100 with an empty body instead of the handler's response");
+			else if (res.code() != 201 || bodyStr(res) != body) e += fmt("POST with Expect: 100-continue: client saw status %d and %d bytes instead of 201 and %d; ", res.code(), res.body().length(), len);
+		}
+		L.done();
+		if (L.srv.seen.size() != 1) e += fmt("handler invoked %d times; ", (int)L.srv.seen.size()); else e += cmpSeen(L.srv.seen[0], "POST", "/echo", "code=201", body);
+		return e;
+	};
+	return j;
+}
+// S5: two concurrent library clients against the real started server: HttpServer::start (accept loop + one handler thread per
+// connection) and stop(true). Six threads: enumerated without preemption only.
+// mixed: the second client fetches a byte range of a file while the first one posts (two different kinds of response in flight).
+struct HandlerT : public Thread { Srv* srv; Socket c; void run() { ((SocketServer*)srv)->serve(c); c.close(); } };
+static Job twoClientsJob(int len, int bound, bool mixed = false) {
+	Job j; j.name = fmt(mixed ? "twomixed.%d.b%d" : "twoclients.%d.b%d", len, bound); j.bound = bound; j.cap = 65536; // a large pipe keeps the number of blocking points (forced switches) small
+	j.body = [len, mixed]() {
 		std::string e;
 		Srv* srv = new Srv(); if (!srv->bind("127.0.0.1", 8000)) e += "bind failed; ";
 		srv->start(true);
-		std::string got[2]; int code[2] = { 0, 0 }; std::string tok[2];
+		std::string got[2], want[2]; int code[2] = { 0, 0 }; std::string tok[2], cr;
 		ClientT c[2];
 		for (int i = 0; i < 2; i++) {
-			c[i].f = [i, len, &got, &code, &tok]() { std::string body = bodyOf(len + i, 5 + i); Dic<> h; h["X-Token"] = fmt("client-%d", i).c_str(); HttpRequest req("POST", "http://127.0.0.1:8000/echo?code=200", ByteArray((const byte*)body.data(), (int)body.size()), h); HttpResponse res = Http::request(req); code[i] = res.code(); const ByteArray& rb = res.body(); got[i].assign((const char*)rb.data(), rb.length()); tok[i] = vfx::S(res.header("X-Token")); };
+			if (mixed && i == 1) { want[i] = "123"; c[i].f = [&got, &code, &tok, &cr]() { Dic<> h; h["Range"] = "bytes=1-3"; HttpResponse res = Http::get(BASEURL "/f.txt", h); code[1] = res.code() == 206 ? 200 : res.code() == 200 ? 206 : res.code(); got[1] = bodyStr(res); tok[1] = "client-1"; cr = vfx::S(res.header("Content-Range")); }; }
+			else { want[i] = bodyOf(len + i, 5 + i); c[i].f = [i, len, &got, &code, &tok]() { std::string body = bodyOf(len + i, 5 + i); Dic<> h; h["X-Token"] = fmt("client-%d", i).c_str(); HttpRequest req("POST", BASEURL "/echo?code=200", ByteArray((const byte*)body.data(), (int)body.size()), h); HttpResponse res = Http::request(req); code[i] = res.code(); got[i] = bodyStr(res); tok[i] = vfx::S(res.header("X-Token")); }; }
 			c[i].start();
 		}
 		c[0].join(); c[1].join();
 		srv->stop(true);
-		for (int i = 0; i < 2; i++) { if (code[i] != 200) e += fmt("client %d saw status %d; ", i, code[i]); if (got[i] != bodyOf(len + i, 5 + i)) e += fmt("client %d received %d bytes that are not its own %d-byte body; ", i, (int)got[i].size(), len + i); if (tok[i] != fmt("client-%d", i)) e += fmt("client %d received the token '%s'; ", i, tok[i].c_str()); }
+		for (int i = 0; i < 2; i++) { if (code[i] != 200) e += fmt("client %d saw an unexpected status (%d); ", i, code[i]); if (got[i] != want[i]) e += fmt("client %d received %d bytes that are not the %d bytes of its own response; ", i, (int)got[i].size(), (int)want[i].size()); if (tok[i] != fmt("client-%d", i)) e += fmt("client %d received the token '%s'; ", i, tok[i].c_str()); }
+		if (mixed && cr != "bytes 1-3/6") e += "the range client received Content-Range '" + cr + "'; ";
 		if (srv->seen.size() != 2) e += fmt("handler invoked %d times; ", (int)srv->seen.size());
 		delete srv;
-		vf::add(W_TWOCLIENTS);
+		wit(mixed ? W_MIXED : W_TWOCLIENTS);
+		return e;
+	};
+	return j;
+}
+// S5b: isolation at one preemption. The library code of interest runs on one side only, the other side is a raw peer that needs a
+// handful of schedule points, so that every schedule with <= 1 preemption can be enumerated:
+//   tworaw: two raw clients (each writes its request at once) <-> two threads running the library's per-connection server code
+//   twolib: two library clients <-> two raw responders (each answers with a body and a token derived from the request it read)
+struct RawClientT : public Thread { std::string req, resp; bool connected; void run() { Socket c; connected = c.connect("127.0.0.1", 8000); if (connected) { c.write(req.data(), (int)req.size()); resp = rawReadAll(c); } c.close(); } };
+struct RawResponderT : public Thread { Socket c; std::string got; void run() { char buf[256]; while (got.find("\r\n\r\n") == std::string::npos) { if (!c.waitInput(5.0)) break; int a = c.available(); if (a <= 0) break; int n = c.read(buf, a < 256 ? a : 256); if (n <= 0) break; got.append(buf, n); }
+		size_t t = got.find("X-Token: client-"); int i = t == std::string::npos ? 7 : got[t + 16] - '0'; std::string body = bodyOf(3 + i, 5 + i), r = fmt("HTTP/1.1 200 OK\r\nX-Token: client-%d\r\nContent-Length: %d\r\n\r\n", i, (int)body.size()) + body; c.write(r.data(), (int)r.size()); c.close(); } };
+static Job twoRawJob(int kind, int bound) { // kind 0: two echo posts, 1: echo post + file range, 2: two minimal HTTP/1.0 requests (few schedule points)
+	Job j; j.name = fmt(kind == 2 ? "tworaw.min.b%d" : kind == 1 ? "tworaw.mixed.b%d" : "tworaw.echo.b%d", bound); j.bound = bound; j.cap = 65536;
+	j.body = [kind]() {
+		bool mixed = kind == 1;
+		std::string e; Srv srv; Socket lst; lst.bind("127.0.0.1", 8000); lst.listen(2);
+		RawClientT c[2]; HandlerT hd[2]; std::string want[2];
+		for (int i = 0; i < 2; i++) {
+			want[i] = kind == 2 ? bodyOf(1 + i, 2) : mixed && i == 1 ? "123" : bodyOf(3 + i, 5 + i);
+			c[i].req = kind == 2 ? fmt("GET /len?n=%d HTTP/1.0\r\n\r\n", 1 + i) : mixed && i == 1 ? std::string("GET /f.txt HTTP/1.1\r\nRange: bytes=1-3\r\nConnection: close\r\n\r\n") : fmt("POST /echo?code=200 HTTP/1.1\r\nX-Token: client-%d\r\nContent-Length: %d\r\nConnection: close\r\n\r\n", i, 3 + i) + want[i];
+			c[i].start();
+		}
+		for (int i = 0; i < 2; i++) { hd[i].srv = &srv; hd[i].c = lst.accept(); hd[i].start(); }
+		c[0].join(); c[1].join(); hd[0].join(); hd[1].join(); lst.close();
+		for (int i = 0; i < 2; i++) {
+			std::vector<RawResp> rs; std::string pe = parseResponses(c[i].resp, rs); bool file = mixed && i == 1;
+			if (!c[i].connected) e += fmt("raw client %d could not connect; ", i);
+			else if (!pe.empty() || rs.size() != 1) e += fmt("raw client %d received %d response(s): %s; ", i, (int)rs.size(), pe.c_str());
+			else {
+				if (rs[0].code != (file ? 206 : 200)) e += fmt("client %d saw status %d; ", i, rs[0].code);
+				if (rs[0].body != want[i]) e += fmt("client %d received %d bytes that are not the %d bytes of its own response; ", i, (int)rs[0].body.size(), (int)want[i].size());
+				if (kind == 2) { if (rs[0].h["content-length"] != fmt("%d", 1 + i)) e += fmt("client %d received headers of another response; ", i); continue; }
+				if (!file && rs[0].h["x-token"] != fmt("client-%d", i)) e += fmt("client %d received the token '%s'; ", i, rs[0].h["x-token"].c_str());
+				if (file && (rs[0].h["content-range"] != "bytes 1-3/6" || rs[0].h.count("x-token"))) e += "the range client received Content-Range '" + rs[0].h["content-range"] + "' / a token; ";
+				if (!file && (rs[0].h.count("content-range") || rs[0].h["x-len"] != fmt("%d", 3 + i))) e += fmt("client %d received headers of another response; ", i);
+			}
+		}
+		if (srv.seen.size() != 2) e += fmt("handler invoked %d times; ", (int)srv.seen.size());
+		wit(mixed ? W_MIXED : W_TWOCLIENTS); wit(W_LIGHT);
+		return e;
+	};
+	return j;
+}
+static Job twoLibJob(int bound) {
+	Job j; j.name = fmt("twolib.b%d", bound); j.bound = bound; j.cap = 65536;
+	j.body = []() {
+		std::string e; Socket lst; lst.bind("127.0.0.1", 8000); lst.listen(2);
+		ClientT c[2]; RawResponderT rr[2]; std::string got[2], tok[2]; int code[2] = { 0, 0 };
+		for (int i = 0; i < 2; i++) { c[i].f = [i, &got, &tok, &code]() { Dic<> h; h["X-Token"] = fmt("client-%d", i).c_str(); HttpResponse res = Http::get(fmt(BASEURL "/r?i=%d", i).c_str(), h); code[i] = res.code(); got[i] = bodyStr(res); tok[i] = vfx::S(res.header("X-Token")); }; c[i].start(); }
+		for (int i = 0; i < 2; i++) { rr[i].c = lst.accept(); rr[i].start(); }
+		c[0].join(); c[1].join(); rr[0].join(); rr[1].join(); lst.close();
+		for (int i = 0; i < 2; i++) { if (code[i] != 200) e += fmt("client %d saw status %d; ", i, code[i]); if (got[i] != bodyOf(3 + i, 5 + i)) e += fmt("client %d received %d bytes that are not the %d bytes of its own response; ", i, (int)got[i].size(), 3 + i); if (tok[i] != fmt("client-%d", i)) e += fmt("client %d received the token '%s'; ", i, tok[i].c_str()); }
+		for (int i = 0; i < 2; i++) { size_t q = rr[i].got.find("GET /r?i="); if (q != 0 || rr[i].got.find(fmt("X-Token: client-%c", rr[i].got[9])) == std::string::npos) e += "a request on the wire mixes the two clients: '" + rr[i].got.substr(0, 80) + "'; "; }
+		wit(W_TWOLIB);
+		return e;
+	};
+	return j;
+}
+// S5c: the same two families with the raw side played by the main thread alone (three threads): both requests are in the pipes
+// before the two server threads start / both responses are written back to back, so that the two library threads overlap fully and
+// every schedule with <= 1 (quick) or <= 2 (thorough) preemptions is cheap to enumerate
+static std::string readHead(Socket& c) { std::string got; char buf[256]; while (got.find("\r\n\r\n") == std::string::npos) { if (!c.waitInput(5.0)) break; int a = c.available(); if (a <= 0) break; int n = c.read(buf, a < 256 ? a : 256); if (n <= 0) break; got.append(buf, n); } return got; }
+static Job twoSrvJob(int kind, int bound) { // kinds as in twoRawJob
+	Job j; j.name = fmt(kind == 2 ? "twosrv.min.b%d" : kind == 1 ? "twosrv.mixed.b%d" : "twosrv.echo.b%d", bound); j.bound = bound; j.cap = 65536;
+	j.body = [kind]() {
+		bool mixed = kind == 1;
+		std::string e; Srv srv; Socket lst; lst.bind("127.0.0.1", 8000); lst.listen(2);
+		Socket c[2]; HandlerT hd[2]; std::string want[2], resp[2];
+		for (int i = 0; i < 2; i++) {
+			want[i] = kind == 2 ? bodyOf(1 + i, 2) : mixed && i == 1 ? "123" : bodyOf(3 + i, 5 + i);
+			std::string req = kind == 2 ? fmt("GET /len?n=%d HTTP/1.0\r\n\r\n", 1 + i) : mixed && i == 1 ? std::string("GET /f.txt HTTP/1.1\r\nRange: bytes=1-3\r\nConnection: close\r\n\r\n") : fmt("POST /echo?code=200 HTTP/1.1\r\nX-Token: client-%d\r\nContent-Length: %d\r\nConnection: close\r\n\r\n", i, 3 + i) + want[i];
+			if (!c[i].connect("127.0.0.1", 8000)) e += "could not connect; "; else c[i].write(req.data(), (int)req.size());
+		}
+		for (int i = 0; i < 2; i++) { hd[i].srv = &srv; hd[i].c = lst.accept(); hd[i].start(); } // connections are accepted in the order they were made
+		for (int i = 0; i < 2; i++) { resp[i] = rawReadAll(c[i]); c[i].close(); }
+		hd[0].join(); hd[1].join(); lst.close();
+		for (int i = 0; i < 2; i++) {
+			std::vector<RawResp> rs; std::string pe = parseResponses(resp[i], rs); bool file = mixed && i == 1;
+			if (!pe.empty() || rs.size() != 1) e += fmt("connection %d received %d response(s): %s; ", i, (int)rs.size(), pe.c_str());
+			else {
+				if (rs[0].code != (file ? 206 : 200)) e += fmt("client %d saw status %d; ", i, rs[0].code);
+				if (rs[0].body != want[i]) e += fmt("client %d received %d bytes that are not the %d bytes of its own response; ", i, (int)rs[0].body.size(), (int)want[i].size());
+				if (kind == 2) { if (rs[0].h["content-length"] != fmt("%d", 1 + i)) e += fmt("client %d received headers of another response; ", i); continue; }
+				if (!file && rs[0].h["x-token"] != fmt("client-%d", i)) e += fmt("client %d received the token '%s'; ", i, rs[0].h["x-token"].c_str());
+				if (file && (rs[0].h["content-range"] != "bytes 1-3/6" || rs[0].h.count("x-token"))) e += "the range client received Content-Range '" + rs[0].h["content-range"] + "' / a token; ";
+				if (!file && (rs[0].h.count("content-range") || rs[0].h["x-len"] != fmt("%d", 3 + i))) e += fmt("client %d received headers of another response; ", i);
+			}
+		}
+		if (srv.seen.size() != 2) e += fmt("handler invoked %d times; ", (int)srv.seen.size());
+		wit(mixed ? W_MIXED : W_TWOCLIENTS); wit(W_LIGHT);
+		return e;
+	};
+	return j;
+}
+static Job twoCliJob(int bound) {
+	Job j; j.name = fmt("twocli.b%d", bound); j.bound = bound; j.cap = 65536;
+	j.body = []() {
+		std::string e; Socket lst; lst.bind("127.0.0.1", 8000); lst.listen(2);
+		ClientT c[2]; std::string got[2], tok[2], reqs[2]; int code[2] = { 0, 0 };
+		for (int i = 0; i < 2; i++) { c[i].f = [i, &got, &tok, &code]() { Dic<> h; h["X-Token"] = fmt("client-%d", i).c_str(); HttpResponse res = Http::get(fmt(BASEURL "/r?i=%d", i).c_str(), h); code[i] = res.code(); got[i] = bodyStr(res); tok[i] = vfx::S(res.header("X-Token")); }; c[i].start(); }
+		Socket s[2]; for (int i = 0; i < 2; i++) s[i] = lst.accept();
+		for (int i = 0; i < 2; i++) reqs[i] = readHead(s[i]);
+		for (int i = 0; i < 2; i++) { size_t t = reqs[i].find("X-Token: client-"); int k = t == std::string::npos ? 7 : reqs[i][t + 16] - '0'; std::string body = bodyOf(3 + k, 5 + k), r = fmt("HTTP/1.1 200 OK\r\nX-Token: client-%d\r\nContent-Length: %d\r\n\r\n", k, (int)body.size()) + body; s[i].write(r.data(), (int)r.size()); }
+		for (int i = 0; i < 2; i++) s[i].close();
+		c[0].join(); c[1].join(); lst.close();
+		for (int i = 0; i < 2; i++) { if (code[i] != 200) e += fmt("client %d saw status %d; ", i, code[i]); if (got[i] != bodyOf(3 + i, 5 + i)) e += fmt("client %d received %d bytes that are not the %d bytes of its own response; ", i, (int)got[i].size(), 3 + i); if (tok[i] != fmt("client-%d", i)) e += fmt("client %d received the token '%s'; ", i, tok[i].c_str()); }
+		for (int i = 0; i < 2; i++) { size_t q = reqs[i].find("GET /r?i="); if (q != 0 || reqs[i].find(fmt("X-Token: client-%c", reqs[i][9])) == std::string::npos) e += "a request on the wire mixes the two clients: '" + reqs[i].substr(0, 80) + "'; "; }
+		wit(W_TWOLIB);
 		return e;
 	};
 	return j;
@@ -267,18 +713,18 @@ static Job twoClientsJob(int len, int bound) {
 static Job bigJob(int len, int bound) {
 	Job j; j.name = fmt("big.%d.b%d", len, bound); j.bound = bound; j.cap = 65536;
 	j.body = [len]() {
-		std::string e; Srv srv; Socket lst; lst.bind("127.0.0.1", 8000); lst.listen(2);
-		Acceptor acc; acc.srv = &srv; acc.lst = &lst; acc.n = 1; acc.start();
+		std::string e; Listener L;
 		std::string body = bodyOf(len, 6);
 		{
-			HttpRequest req("PUT", "http://127.0.0.1:8000/echo?code=200", ByteArray((const byte*)body.data(), (int)body.size()));
+			HttpRequest req("PUT", BASEURL "/echo?code=200", ByteArray((const byte*)body.data(), (int)body.size()));
 			HttpResponse res = Http::request(req);
 			const ByteArray& rb = res.body();
 			if (res.code() != 200 || rb.length() != len || memcmp(rb.data(), body.data(), len) != 0) e += fmt("%d-byte body: client got status %d and %d bytes; ", len, res.code(), rb.length());
 		}
-		acc.join(); lst.close();
+		L.done();
+		Srv& srv = L.srv;
 		if (srv.seen.size() != 1 || srv.seen[0].body != body) e += fmt("%d-byte body: handler saw %d bytes; ", len, srv.seen.empty() ? -1 : (int)srv.seen[0].body.size());
-		vf::add(W_BIG);
+		wit(W_BIG);
 		return e;
 	};
 	return j;
@@ -288,7 +734,14 @@ int main(int argc, char** argv) {
 	bool big = false; for (int i = 1; i < argc; i++) if (!strcmp(argv[i], "--big")) big = true;
 	vf::init(argc, argv, "C10", big ? "s_c10_httpx_big" : "s_c10_httpx");
 	C_EXEC = vf::counter("traces"); C_POINTS = vf::counter("transitions"); C_JOBS = vf::counter("scenarios"); C_EVAL = vf::counter("evaluations"); C_DIST = vf::counter("distinct_nontrivial"); vf::counter("states");
-	W_PREEMPT = vf::counter("w.executions_with_preemption"); W_RANGE206 = vf::counter("w.satisfiable_ranges"); W_RANGE416 = vf::counter("w.unsatisfiable_ranges"); W_JSON = vf::counter("w.json_exchanges"); W_KEEPALIVE = vf::counter("w.keepalive_pipelined"); W_TWOCLIENTS = vf::counter("w.two_concurrent_clients"); W_CHUNKED_REQ = vf::counter("w.chunked_requests"); W_CHUNKED_RESP = vf::counter("w.chunked_responses"); W_BIG = vf::counter("w.large_bodies");
+	W_PREEMPT = vf::counter("w.executions_with_preemption"); W_CHUNKED_RESP = vf::counter("w.chunked_responses");
+	if (big) W_BIG = vf::counter("w.large_bodies");
+	else {
+		W_RANGE206 = vf::counter("w.satisfiable_ranges"); W_RANGE416 = vf::counter("w.unsatisfiable_ranges"); W_JSON = vf::counter("w.json_exchanges"); W_KEEPALIVE = vf::counter("w.keepalive_pipelined"); W_TWOCLIENTS = vf::counter("w.two_concurrent_clients"); W_CHUNKED_REQ = vf::counter("w.chunked_requests");
+		W_QUERYVALS = vf::counter("w.decoded_query_value_sets_compared"); W_PCTPATH = vf::counter("w.percent_encoded_paths"); W_FRAGMENT = vf::counter("w.urls_with_fragment"); W_RANGE_OPEN = vf::counter("w.open_ended_ranges"); W_RANGE_SUFFIX = vf::counter("w.suffix_ranges"); W_RANGE_IGNORED = vf::counter("w.unsupported_range_headers");
+		W_LOWER_HDR = vf::counter("w.lower_case_request_header_seen"); W_REDIRECT_HOPS = vf::counter("w.redirect_hops_followed"); W_REDIRECT_LIMIT = vf::counter("w.redirect_limit_reached"); W_REDIRECT_OFF = vf::counter("w.redirects_not_followed"); W_FILE_REQ = vf::counter("w.file_request_bodies"); W_MULTIPART = vf::counter("w.multipart_uploads"); W_DOWNLOAD = vf::counter("w.downloads_to_file");
+		W_FORM = vf::counter("w.form_encoded_posts"); W_METHODS = vf::counter("w.delete_patch_head_exchanges"); W_OPTIONS_AUTO = vf::counter("w.options_answered_by_server"); W_EXPECT_SRV = vf::counter("w.expect_100_raw_requests"); W_INTERIM_CLI = vf::counter("w.interim_responses_to_client"); W_HTTP10 = vf::counter("w.http10_requests"); W_MISSING = vf::counter("w.missing_file_responses"); W_MIXED = vf::counter("w.concurrent_echo_and_range"); W_HDR3 = vf::counter("w.three_header_requests"); W_LIGHT = vf::counter("w.two_clients_two_handler_threads"); W_TWOLIB = vf::counter("w.two_library_clients_raw_responders"); W_FRAGMENTED = vf::counter("w.raw_streams_delivered_in_two_parts");
+	}
 	vsched::set_fatal_handler(onFatal);
 	vsched::set_state_probe(vnet::state_hash);
 	g_root = vf::scratch_dir() + "/root"; if (system(("mkdir -p '" + g_root + "' && printf 012345 > '" + g_root + "/f.txt'").c_str())) {}
@@ -300,14 +753,38 @@ int main(int argc, char** argv) {
 	} else {
 		const char* methods[] = { "GET", "POST", "PUT" };
 		for (int m = 0; m < 3; m++) for (int len = 0; len <= 20; len++) { if (m == 0 && len > 0) continue; jobs.push_back(echoJob(methods[m], len, len % 3 == 0 ? 200 : len % 3 == 1 ? 201 : 404, (T && len <= 3) ? 2 : 1)); }
+		const char* methods2[] = { "DELETE", "PATCH", "OPTIONS", "HEAD" }; int lens2[] = { 0, 1, 9 };
+		for (int m = 0; m < 4; m++) for (int k = 0; k < 3; k++) { if (m == 3 && k > 0) continue; jobs.push_back(echoJob(methods2[m], lens2[k], k == 0 ? 200 : k == 1 ? 201 : 404, 1)); }
+		jobs.push_back(fragmentJob(0, 1)); jobs.push_back(fragmentJob(1, 0)); jobs.push_back(hdr3Job(0));
 		for (int len = 0; len <= 20; len++) for (int pc = 1; pc <= 3; pc += 2) jobs.push_back(streamJob(len, pc, (T && len % 4 == 0) ? 1 : 0));
 		for (int n = 0; n <= (T ? 12 : 6); n += 3) jobs.push_back(jsonJob(n, 1));
+		jobs.push_back(formJob(1));
 		jobs.push_back(rangeJob(-1, 0, 1));
-		for (int b = 0; b <= 6; b++) for (int e = 0; e <= 6; e++) jobs.push_back(rangeJob(b, e, (b + e) % 4 == 0 ? 1 : 0));
-		for (int v = 0; v < 4; v++) { int n = v == 0 ? 87 : v == 1 ? 110 : v == 2 ? 140 : 170; int first = v == 3 ? 117 : -100; for (int cut = 0; cut < n; cut++) jobs.push_back(rawClientJob(v, cut, (cut % (T ? 3 : 9) == 0 || (cut > first - 14 && cut <= first + 2)) ? 1 : 0)); }
-		for (int v = 0; v < 3; v++) { int n = v == 0 ? 56 : v == 1 ? 75 : 44; for (int cut = 0; cut < n; cut++) jobs.push_back(rawServerJob(v, cut, cut % (T ? 2 : 8) == 0 ? 1 : 0)); }
-		for (int len = 0; len <= (T ? 9 : 3); len += 3) jobs.push_back(twoClientsJob(len, T ? 1 : 0));
+		for (int b = 0; b <= 7; b++) for (int e = 0; e <= 7; e++) jobs.push_back(rangeJob(b, e, (b + e) % 4 == 0 ? 1 : 0));
+		for (int b = 0; b <= 7; b++) jobs.push_back(rangeHdrJob(fmt("bytes=%d-", b), b % 3 == 0 ? 1 : 0));
+		for (int n = 0; n <= 7; n++) jobs.push_back(rangeHdrJob(fmt("bytes=-%d", n), n % 3 == 0 ? 1 : 0));
+		const char* odd[] = { "bytes=0-1,3-4", "bytes=-2,0-0", "items=0-1", "bytes", "bytes=a-b" };
+		for (size_t i = 0; i < sizeof odd / sizeof *odd; i++) jobs.push_back(rangeHdrJob(odd[i], i == 0 ? 1 : 0));
+		jobs.push_back(missingJob(1));
+		jobs.push_back(putFileJob(1)); jobs.push_back(uploadJob(1));
+		for (int w = 0; w < 4; w++) jobs.push_back(downloadJob(w, 1));
+		jobs.push_back(redirectJob(302, 1, true, 1)); jobs.push_back(redirectJob(301, 2, true, 0)); jobs.push_back(redirectJob(307, 1, true, 1)); jobs.push_back(redirectJob(307, 3, true, 0)); jobs.push_back(redirectJob(308, 4, true, 0)); jobs.push_back(redirectJob(302, 2, false, 1)); jobs.push_back(redirectJob(307, 1, false, 0));
+		for (int v = 0; v < RAWCLIENT_VARIANTS; v++) {
+			std::string req, second; rawClientBytes(v, req, second); int n = (int)(req.size() + second.size()), first = second.empty() ? -100 : (int)req.size(); // `first`: where the second pipelined request begins
+			for (int cut = 0; cut < n; cut++) jobs.push_back(rawClientJob(v, cut, (cut % (T ? 3 : 9) == 0 || (cut > first - 14 && cut <= first + 2)) ? 1 : 0));
+		}
+		for (int v = 0; v < RAWSERVER_VARIANTS; v++) { int n = (int)rawServerBytes(v).size(); for (int cut = 0; cut < n; cut++) jobs.push_back(rawServerJob(v, cut, cut % (T ? 2 : 8) == 0 ? 1 : 0)); }
+		jobs.push_back(expectJob(9, 1)); jobs.push_back(expectJob(0, 1));
+		for (int len = 0; len <= (T ? 9 : 3); len += 3) jobs.push_back(twoClientsJob(len, 0));
+		jobs.push_back(twoClientsJob(3, 0, true));
+		// one preemption anywhere in two concurrent exchanges: about 20000-30000 schedules per scenario, explored by one worker each: thorough tier only
+		for (int k = 0; k < 3; k++) jobs.push_back(twoRawJob(k, T ? 1 : 0));
+		jobs.push_back(twoLibJob(T ? 1 : 0));
+		// three threads: <= 1 preemption costs 400-2000 schedules per scenario; <= 2 preemptions 30000-100000 (thorough, server side)
+		for (int k = 0; k < 3; k++) jobs.push_back(twoSrvJob(k, T ? 2 : 1));
+		jobs.push_back(twoCliJob(1));
 	}
+	std::stable_partition(jobs.begin(), jobs.end(), [](const Job& j) { return j.name.compare(0, 3, "two") == 0 || j.bound >= 2; }); // the long explorations start first
 	if (getenv("C10_ONLY")) { std::vector<Job> q; for (size_t i = 0; i < jobs.size(); i++) if (jobs[i].name.find(getenv("C10_ONLY")) == 0) q.push_back(jobs[i]); jobs.swap(q); }
 	if (vf::opt.replay) {
 		std::string k = vf::opt.kase, sched; size_t bar = k.find('|'); if (bar != std::string::npos) { sched = k.substr(bar + 1); k = k.substr(0, bar); }
@@ -316,7 +793,7 @@ int main(int argc, char** argv) {
 	}
 	vf::parallel(jobs.size(), [&](uint64_t i) { if (vf::deadline_passed()) { vf::cap_hit("deadline"); return; } runJob(jobs[i], 0); });
 	vf::setinfo("scenarios", fmt("%d", (int)jobs.size()));
-	if (!big) { vf::sample("echo.PUT.13.201: Http::request PUT with a 13-byte body (CR LF NUL 0xff) over a 4-byte pipe, send block 8 / receive block 5, all schedules with <= 1 preemption"); vf::sample("range.2.2: GET /f.txt with Range: bytes=2-2; rawclient chunked PUT cut at every 3rd byte; rawserver chunked 203 response cut at every 2nd byte"); }
+	if (!big) { vf::sample("echo.PUT.13.201: Http::request PUT /ec%68o?code=201&k=a%20b+c%26d&%6b2=%3D&e= with a 13-byte body (CR LF NUL 0xff) over a 4-byte pipe, send block 8 / receive block 5, all schedules with <= 1 preemption"); vf::sample("range.2.2: GET /f.txt with Range: bytes=2-2; rangeh.bytes=-3; rawclient chunked PUT cut at every 3rd byte; rawserver chunked 203 response cut at every 2nd byte; redir.307.3: POST followed through three 307 redirects"); }
 	else vf::sample("big.128001: PUT of 128001 bytes with the real 128000/16000 block sizes over a 64 KiB pipe");
 	return vf::finish();
 }
